@@ -77,7 +77,7 @@ class WidthModifier(ABC):
 
 class RelativeWidthModifier(WidthModifier):
     def __call__(self, mean):
-        return self.value * mean
+        return self.value * abs(mean)
 
 
 class AbsoluteWidthModifier(WidthModifier):
